@@ -99,6 +99,10 @@ class CoDomain(Domain):
         return r
 
     def for_counts(self, st, node, itersym):
+        if WQ in itersym.text and st.data.get('focus') is not None:
+            # a search through the wait heap: modelled by the iteration
+            # that meets the record looked for (see decide)
+            return [1]
         return [0, 1]
 
     # ------------------------------------------------------------------
@@ -133,6 +137,17 @@ class CoDomain(Domain):
                                                                ast.Is)):
                 return lt == rt
             if fo is not None:
+                if isinstance(op, ast.Is) and any('·' in x and WQ in x.replace(
+                        '_', '.') or ('·' in x and 'wait_queue' in x)
+                        for x in (lt, rt)):
+                    # heap element `is` the wait record of the focus: the
+                    # record is in the heap exactly when the focus waits
+                    other = r if '·' in lt else l
+                    rv = self._rec_value(st, other)
+                    if rv == 'wait' and fo['nW'] >= 1:
+                        return True
+                    if rv in ('none', 'missing', 'default'):
+                        return False
                 if isinstance(op, ast.Is) and isinstance(r, ast.Constant) \
                         and r.value is None and self._is_focus(st, lt) \
                         and 'heappop' in lt:
@@ -358,6 +373,29 @@ class CoDomain(Domain):
             return
         base = dotted(tn.value)
         key = norm(tn.slice)
+        if base == WQ:
+            # `for i, rec in enumerate(heap): if rec is <record of g>: del
+            # heap[i]; break` - the record found by identity is removed
+            self._mut(st)
+            hit = None
+            for e in reversed(st.trace):
+                if e.kind == 'cond' and e.extra is True and isinstance(
+                        e.sym.node, ast.Compare) and len(
+                            e.sym.node.ops) == 1 and isinstance(
+                                e.sym.node.ops[0], ast.Is):
+                    sides = [e.sym.node.left, e.sym.node.comparators[0]]
+                    rv = [self._rec_value(st, s_) for s_ in sides]
+                    if any(v is not None for v in rv):
+                        hit = rv[0] if rv[0] is not None else rv[1]
+                    break
+            if hit is None:
+                self.problems.append((ev.node, 'deletion from the wait heap '
+                                      'not understood'))
+                return
+            if hit == 'wait':
+                fo['nW'] = max(0, fo['nW'] - 1)
+            st.data['heap_dirty'] = True
+            return
         if base in (G, P) and self._is_focus(st, key):
             self._mut(st)
             fld = 'inG' if base == G else 'inP'
